@@ -3,7 +3,7 @@
    the extracted datatypes. *)
 From Coq Require Import ZArith List Floats.
 From Coq Require Import ExtrOcamlBasic ExtrOCamlFloats ExtrOCamlInt63.
-From SC Require Import Num Vec3 Kernel FloatIO Grid Integrator CellCycle.
+From SC Require Import Num Vec3 Kernel FloatIO Grid Integrator CellCycle Mesh Geometry Forces.
 
 Definition kernel_f := kernel NumF.
 
@@ -37,9 +37,32 @@ Definition cc_divvol_f := @divvol_of float NumF.
 Definition cc_initial_target_f := @initial_target float NumF.
 Definition cc_pressure_f := @update_pressure float NumF.
 
+(* C12/C13/C01: geometry and surface validity *)
+Definition geo_repair_f := @repair_orientation float NumF.
+Definition geo_tri_pos_f := @tri_pos float NumF.
+Definition geo_normal_f := @face_normal float NumF.
+Definition geo_area_f := @face_area float NumF.
+Definition geo_volume_f := @compute_volume float NumF.
+Definition geo_total_area_f := @compute_area float NumF.
+Definition geo_centroid_f := @compute_centroid float NumF.
+Definition geo_aabb_f := @aabb float NumF.
+Definition mesh_valid_surface_b := valid_surface_b.
+Definition mesh_valid_dump_b := valid_dump_b.
+Definition mesh_connected_b := connected_b.
+
+(* C02: internal forces *)
+Definition frc_refresh_f := @refresh float NumF.
+Definition frc_pressure_f := @apply_pressure float NumF.
+Definition frc_tension_f := @apply_tension float NumF.
+Definition frc_anglereg_f := @apply_anglereg float NumF.
+Definition frc_bending_f := @apply_bending float NumF.
+
 Extraction Language OCaml.
 Extraction "model.ml" NumF kernel_f
   grid_dims_f grid_idx3_f grid_in_range_f grid_flat_f grid_empty_f grid_place_f grid_nbh_f grid_content_f grid_content_at_f
   grid3_empty_f grid3_place_f grid3_nbh_f grid3_content_f grid3_content_at_f
   integ_steps_f integ_node_mass_f
-  cc_step_f cc_ready_f cc_below_f cc_growth_f cc_divvol_f cc_initial_target_f cc_pressure_f.
+  cc_step_f cc_ready_f cc_below_f cc_growth_f cc_divvol_f cc_initial_target_f cc_pressure_f
+  geo_repair_f geo_tri_pos_f geo_normal_f geo_area_f geo_volume_f geo_total_area_f geo_centroid_f geo_aabb_f
+  mesh_valid_surface_b mesh_valid_dump_b mesh_connected_b
+  frc_refresh_f frc_pressure_f frc_tension_f frc_anglereg_f frc_bending_f.
